@@ -74,8 +74,8 @@ theorem C18_put_refines_partial (H : Hashes) (dl : Nat) {s : State} (hi : Inv s)
 
 /-- get_object, whole and with ANY range (int, open-ended, suffix of any length): the most recently written content,
     metadata, MD5 ETag; for a range the RFC 9110 slice (`rfcInterval`) with `Content-Range` and `Content-Length`,
-    `InvalidRange` when unsatisfiable. Partial — excluded: missing bucket (fs:missing-bucket-reported-as-missing-key),
-    leftover directories, non-canonical keys -/
+    `InvalidRange` when unsatisfiable; a missing key is `NoSuchKey`, a missing bucket `NoSuchBucket` (391a940; before:
+    fs:missing-bucket-reported-as-missing-key). Partial — excluded: leftover directories, non-canonical keys -/
 theorem C18_get_refines_partial (H : Hashes) (dl : Nat) {s : State} (hi : Inv s) {b k : Bytes} {range : Option Range}
     (hg : GetOk s b k) :
     (step H dl s (.getObject b k range)).2 = (StoreSpec.step H (abs s) (.getObject b k range)).2 ∧
@@ -126,7 +126,8 @@ theorem C18_delete_objects_refines_partial (H : Hashes) (dl : Nat) {s : State} (
 
 /-- copy_object: the destination becomes the source's content, metadata and checksums; an object copied onto itself
     stays as it is. Partial — excluded: a destination metadata file the source lacks (fs:stale-metadata-after-copy),
-    differing recorded checksums (fs:stale-checksum-after-copy), missing source bucket -/
+    differing recorded checksums (fs:stale-checksum-after-copy); a missing source bucket is `NoSuchBucket` on both
+    sides (391a940) -/
 theorem C18_copy_refines_partial (H : Hashes) (dl : Nat) {s : State} (hi : Inv s) {sb sk db dk : Bytes}
     (hg : CopyOk s sb sk db dk) :
     (step H dl s (.copyObject sb sk db dk)).2 = (StoreSpec.step H (abs s) (.copyObject sb sk db dk)).2 ∧
@@ -325,6 +326,10 @@ example : CopyOk (run H0 4096 {} (demo.take 11)).1 bka kDE bka kDF := by decide
 /-- head_object of a key that does not exist in an existing bucket, and of a key in a bucket that does not exist -/
 example : HeadOk (run H0 4096 {} (demo.take 3)).1 bka kX := by decide
 example : HeadOk (run H0 4096 {} (demo.take 3)).1 [98, 107, 98] kX := by decide
+/-- get_object, copy_object and upload_part_copy with a (source) bucket that does not exist -/
+example : GetOk (run H0 4096 {} (demo.take 3)).1 [98, 107, 98] kX := by decide
+example : CopyOk (run H0 4096 {} (demo.take 3)).1 [98, 107, 98] kX bka kDF := by decide
+example : UploadPartCopyOk (run H0 4096 {} (demo.take 23)).1 bka kX (some 1) 2 [98, 107, 98] kDE none := by decide
 /-- delete_object of a key that does not exist, in an existing bucket and in a bucket that does not exist -/
 example : DeleteOk (run H0 4096 {} (demo.take 3)).1 bka kX := by decide
 example : DeleteOk (run H0 4096 {} (demo.take 3)).1 [98, 107, 98] kX := by decide
